@@ -209,3 +209,19 @@ N("C13", "selection through any()", (MC, "                for msg in messages:\n
                                        "                if any(msg.is_valid for msg in messages):\n                    self._selected_reader = reader\n                    self._reader_candidates.clear()\n"))
 N("C13", "presence test written with is not None", (MC, "        if self._selected_reader:\n            messages = self._selected_reader.read(data)", "        if self._selected_reader is not None:\n            messages = self._selected_reader.read(data)"))
 N("C13", "payload truthiness test", (MC, "if payload is not None and len(payload) > 0:", "if payload:"))
+
+# ------------------------------------------------------------------------------------------------ C12
+AD = "autodecoder"
+S("C12", "modulus dropped from the index", "R1", (AD, "            index = (i + previous_success_index) % len(\n                AutoDecoder.payload_decoder_functions\n            )\n            _, decoder", "            index = min(i + previous_success_index, len(AutoDecoder.payload_decoder_functions) - 1)\n            _, decoder"))
+S("C12", "index stored before the call", "R2", (AD, "                decoded = decoder(payload)\n                self.__previous_success = index\n", "                self.__previous_success = index\n                decoded = decoder(payload)\n"))
+S("C12", "return None inside the handler", "R2", (AD, "                decoded = decoder(payload)\n                self.__previous_success = index\n                return decoded\n            except (construct.ConstructError, ValueError):\n                pass", "                decoded = decoder(payload)\n                self.__previous_success = index\n                return decoded\n            except (construct.ConstructError, ValueError):\n                return None"))
+S("C12", "table pairs Kaifa_frame with the Kamstrup function", "R4", (AD, '("Kaifa_frame", kaifa.decode_frame_content)', '("Kaifa_frame", kamstrup.decode_frame_content)'))
+S("C12", "decode_message hands as_bytes to the decoder", "R5", (AD, "                    else decoder(message.payload)", "                    else decoder(message.as_bytes)"))
+S("C12", "rotation without wrap-around", "R1", (AD, "        for i in range(len(AutoDecoder.payload_decoder_functions)):\n            index = (i + previous_success_index) % len(\n                AutoDecoder.payload_decoder_functions\n            )\n            _, decoder",
+                                              "        for index in range(previous_success_index, len(AutoDecoder.payload_decoder_functions)):\n            _, decoder"))
+S("C12", "default written into the remembered index", "R2", (AD, "        previous_success_index = (\n            self.__previous_success if self.__previous_success else 0\n        )\n\n        for i in range(len(AutoDecoder.payload_decoder_functions)):\n            index = (i + previous_success_index) % len(\n                AutoDecoder.payload_decoder_functions\n            )\n            _, decoder",
+    "        if self.__previous_success is None:\n            self.__previous_success = 0\n        previous_success_index = self.__previous_success\n\n        for i in range(len(AutoDecoder.payload_decoder_functions)):\n            index = (i + previous_success_index) % len(\n                AutoDecoder.payload_decoder_functions\n            )\n            _, decoder"))
+S("C12", "name property reads a fixed entry", "R3", (AD, "            decoder_name, _ = AutoDecoder.payload_decoder_functions[\n                self.__previous_success\n            ]", "            decoder_name, _ = AutoDecoder.payload_decoder_functions[0]"))
+S("C12", "handler classes differ between the two methods", "R5", (AD, "                self.__previous_success = index\n                return decoded\n            except (construct.ConstructError, ValueError):\n                pass\n\n        return None\n\n    def decode_message(", "                self.__previous_success = index\n                return decoded\n            except construct.ConstructError:\n                pass\n\n        return None\n\n    def decode_message("))
+N("C12", "start index via `or 0`", (AD, "        previous_success_index = (\n            self.__previous_success if self.__previous_success else 0\n        )\n\n        for i in range(len(AutoDecoder.payload_decoder_functions)):\n            index = (i + previous_success_index) % len(\n                AutoDecoder.payload_decoder_functions\n            )\n            _, decoder",
+                                     "        previous_success_index = self.__previous_success or 0\n\n        for i in range(len(AutoDecoder.payload_decoder_functions)):\n            index = (previous_success_index + i) % len(\n                AutoDecoder.payload_decoder_functions\n            )\n            _, decoder"))
